@@ -6,6 +6,7 @@
 // the real function with a straightforward reference definition.  exit 1 = the real function differs from the reference on
 // some input (first difference printed); 0 = no difference; 2 = usage.
 #include "replay/common/args.hh"
+#include <algorithm>
 #include "Strings.hh"
 #include <functional>
 #include <stdexcept>
@@ -126,6 +127,20 @@ int main(int argc, char** argv) {
   if (A.has("in_max_splits") && A.u("in_max_splits") > 3) maxes.push_back(A.u("in_max_splits"));
   printf("%s: sweep over all strings up to length %zu\n", m.c_str(), L);
 
+  if (m == "string_printf") {
+    // the formatted text has g_fmt_len characters: check that length and a window of lengths around every power of two
+    // (internal buffer sizes), comparing with the text itself
+    vector<size_t> lens; size_t want = A.u("g_fmt_len");
+    if (want < (1u << 22)) lens.push_back(want);
+    for (size_t p2 = 1; p2 <= (1u << 16); p2 <<= 1) for (size_t d = 0; d < 3; d++) { if (p2 + d >= 1) lens.push_back(p2 + d - 1); }
+    for (size_t n : lens) {
+      string text(n, 'x'); for (size_t i = 0; i < n; i++) text[i] = (char)('a' + (i * 7) % 26);
+      string got = string_printf("%s", text.c_str());
+      if (got != text) { printf("POSTCONDITION VIOLATED on the real code: string_printf(\"%%s\", <%zu chars>) returned %zu chars, first difference at %zu\n", n, got.size(),
+            (size_t)(std::mismatch(got.begin(), got.end(), text.begin(), text.end()).first - got.begin())); return 1; }
+    }
+    printf("holds on these lengths\n"); return 0;
+  }
   if (m == "split" || m == "lemma_join_split") {
     ok = sweep(alpha + "b", L, [&](const string& s) {
       for (size_t mx : maxes) {
